@@ -782,5 +782,58 @@ class C20(Plan):
         return None
 
 
+class C17(Plan):
+    """no operation allocates (apart from to_vec; boxed is not part of the op language) + no_std / alloc-only builds"""
+    pid = "C17"
+    corr = ("r-", "sz", "c", "a")
+    spec = ("r-", "c")
+    level = "other"
+    cfgs_quick = ("dev",)
+    cfgs_thorough = ("dev", "rel")
+
+    def gen(self, tier, seed):
+        g = Gen(seed)
+        ns = Ns(tier, [0, 1, 2, 3, 4], [0, 1, 2, 3, 4, 5, 6])
+        for fam in (fam_push, fam_pop, fam_index1, fam_swap, fam_bulk, fam_mut_views, fam_accessors, fam_constructors,
+                    fam_drain_forms, fam_iter_forms):
+            g.one_step(ns, [3], fam)
+            if fam is not fam_constructors:      # from_array / clone_from are only wired for the tracked element type
+                g.one_step(Ns(tier, [0, 1, 2, 3], [0, 1, 2, 3, 4]), [3], fam, elem="u8")
+        g.one_step(Ns(tier, [0, 1, 2, 3], [0, 1, 2, 3, 4]), [3], lambda c, N, sz: fam_drain(c, N, sz, sc_for(tier, 1)), elem="u8")
+        g.one_step(ns, [3], lambda c, N, sz: ["hash", "clone_keep", "clone_drop", "eq_slice slice " + c.es(sz, default_vals(sz)),
+                                              "into_iter n,b", "iter n,b,l,c", "iter_mut n,b"], elem="u8")
+        g.one_step(Ns(tier, [0, 1, 2, 3], [0, 1, 2, 3, 4]), [2], fam_io(["std"]), elem="u8", suffix=())
+        random_histories(g, tier, 40 if tier == "quick" else 1000, [5, 8, 16, 64] + ([1000] if tier != "quick" else []),
+                         40 if tier == "quick" else 150)
+        return g.cases
+
+    def oracle_op(self, c, k, optext, rec, p):
+        i = rec["i"]
+        if i.get("r", "").startswith("panic"):
+            return None      # unwinding allocates the panic payload; the property is about returning calls
+        a = int(i.get("a", "0"))
+        name = optext.split(" ")[0]
+        if name == "to_vec":
+            n = len([x for x in (p["ops"].get(k - 1, {}).get("i") if k > 0 else p["init"].get("impl") or {}).get("c", "-").split(",") if x != "-"])
+            if a > (1 if n > 0 else 0):
+                return "to_vec allocated %d times for %d elements" % (a, n)
+            return None
+        if a != 0:
+            return "%s performed %d heap allocation(s)" % (optext, a)
+        return None
+
+    def extra_obligations(self, tier, wd):
+        """the crate builds without std and with only alloc (working tree, target dir outside /repo)"""
+        import engine as E
+        out = []
+        for name, flags in (("no-default-features", "--no-default-features"),
+                            ("alloc-only", "--no-default-features --features alloc")):
+            tdir = E.os.path.join(E.CACHE, "target-nostd")
+            rc, log = E.sh("cargo build --offline --lib %s" % flags, cwd=E.REPO,
+                           env={"CARGO_TARGET_DIR": tdir, "CARGO_NET_OFFLINE": "true"}, timeout=900)
+            out.append(("cargo build " + flags, rc == 0, log[-1500:]))
+        return out
+
+
 ALL = {p.pid: p for p in (C01(), C02(), C03(), C04(), C05(), C06(), C07(), C08(), C09(), C10(),
-                          C11(), C12(), C13(), C14(), C16(), C18(), C19(), C20())}
+                          C11(), C12(), C13(), C14(), C16(), C17(), C18(), C19(), C20())}
